@@ -5,8 +5,11 @@
   request never hangs in the model; `PanicClass.outOfFuel` is the model's only artificial
   outcome and `c14_total` shows it is unreachable for well-formed programs.
 
-  PROVED: `c14_panics`, `c14_cycle_origin`, `c14_propagates_*`, `c14_self_call_partial`,
-  `c14_total`, `c14_state_ok`, `c14_recovers`, `c14_panic_nodes_not_poisoned`.
+  PROVED (all for the full body language, value-controlled gates included; `callees env ρ` is
+  relative to an assignment `ρ` of the values that decide the gates, any `ρ` will do in
+  `c14_propagates_evalM` / `c14_self_call_partial`): `c14_panics`, `c14_cycle_origin`,
+  `c14_propagates_*`, `c14_self_call_partial`, `c14_total`, `c14_state_ok`, `c14_recovers`,
+  `c14_panic_nodes_not_poisoned`.
 
   NOT YET PROVED (intended full statements):
   * `c14_panics` (global, forward form): "if during a request a `panic`-strategy node is fetched
@@ -88,7 +91,7 @@ theorem c14_origin_execute (P : Prog) (env : Nat → Nat) :
   | succ d ih =>
     intro c s e h
     unfold execute at h
-    rcases C15.c15_bounded_execute P env _ c false _ e h with h1 | ⟨c', s0, h2⟩
+    rcases C15.c15_bounded_execute P env _ c _ e h with h1 | ⟨c', s0, h2⟩
     · intro hc; rw [h1] at hc; cases hc
     · exact c14_origin_fetch P _ ih c' s0 e h2
 
@@ -108,36 +111,45 @@ theorem c14_cycle_origin (P : Prog) (env : Nat → Nat) (final : List (Nat × Na
 
 /-! ### panics propagate unchanged (strictness of every model function) -/
 
-/-- a body whose callees start with `c`: a panic of the fetch of `c` is the body's outcome. -/
-theorem c14_propagates_evalM (env : Nat → Nat) (read : Nat → St → Res Fetched) (err : Panic) :
-    ∀ (e : Expr) (s : St) (c : Nat) (rest : List Nat), callees env e = c :: rest →
+/-- a body without callees (under `ρ`) evaluates without fetching anything. -/
+theorem c14_pure_evalM (env ρ : Nat → Nat) (read : Nat → St → Res Fetched) :
+    ∀ (e : Expr) (s : St), callees env ρ e = [] →
+      evalM env read e s = .ok (evalExpr env ρ e, [], s) := by
+  intro e
+  induction e with
+  | const c => intro s _; rfl
+  | input i => intro s _; rfl
+  | call j => intro s h; simp [callees] at h
+  | union a b iha ihb =>
+    intro s h
+    simp only [callees, List.append_eq_nil_iff] at h
+    simp [evalM, evalExpr, iha s h.1, ihb s h.2]
+  | inter a b iha ihb =>
+    intro s h
+    simp only [callees, List.append_eq_nil_iff] at h
+    simp [evalM, evalExpr, iha s h.1, ihb s h.2]
+  | ite i a b iha ihb =>
+    intro s h
+    simp only [callees] at h
+    simp only [evalM, evalExpr]
+    split
+    · rename_i hc; rw [if_pos hc] at h; exact iha s h
+    · rename_i hc; rw [if_neg hc] at h; exact ihb s h
+  | gate g a ihg iha =>
+    intro s h
+    simp only [callees, List.append_eq_nil_iff] at h
+    simp only [evalM, evalExpr, ihg s h.1]
+    by_cases ho : evalExpr env ρ g % 2 = 1
+    · rw [if_pos ho] at h
+      simp [ho, iha s h.2]
+    · simp [ho]
+
+/-- a body whose callees (under any `ρ`) start with `c`: a panic of the fetch of `c` is the
+    body's outcome. -/
+theorem c14_propagates_evalM (env ρ : Nat → Nat) (read : Nat → St → Res Fetched) (err : Panic) :
+    ∀ (e : Expr) (s : St) (c : Nat) (rest : List Nat), callees env ρ e = c :: rest →
       read c s = .error err → evalM env read e s = .error err := by
-  have pure : ∀ (e : Expr) (s : St), callees env e = [] →
-      ∃ v, evalM env read e s = .ok (v, [], s) := by
-    intro e
-    induction e with
-    | const c => intro s _; exact ⟨_, rfl⟩
-    | input i => intro s _; exact ⟨_, rfl⟩
-    | call j => intro s h; simp [callees] at h
-    | union a b iha ihb =>
-      intro s h
-      simp only [callees, List.append_eq_nil_iff] at h
-      obtain ⟨x, hx⟩ := iha s h.1
-      obtain ⟨y, hy⟩ := ihb s h.2
-      exact ⟨x ||| y, by simp [evalM, hx, hy]⟩
-    | inter a b iha ihb =>
-      intro s h
-      simp only [callees, List.append_eq_nil_iff] at h
-      obtain ⟨x, hx⟩ := iha s h.1
-      obtain ⟨y, hy⟩ := ihb s h.2
-      exact ⟨x &&& y, by simp [evalM, hx, hy]⟩
-    | ite i a b iha ihb =>
-      intro s h
-      simp only [callees] at h
-      simp only [evalM]
-      split
-      · rename_i hc; rw [if_pos hc] at h; exact iha s h
-      · rename_i hc; rw [if_neg hc] at h; exact ihb s h
+  have pure := c14_pure_evalM env ρ read
   intro e
   induction e with
   | const c => intro s c' rest h; simp [callees] at h
@@ -150,11 +162,10 @@ theorem c14_propagates_evalM (env : Nat → Nat) (read : Nat → St → Res Fetc
   | union a b iha ihb =>
     intro s c rest h hr
     simp only [callees] at h
-    cases hca : callees env a with
+    cases hca : callees env ρ a with
     | nil =>
       rw [hca] at h
-      obtain ⟨x, hx⟩ := pure a s hca
-      simp [evalM, hx, ihb s c rest h hr]
+      simp [evalM, pure a s hca, ihb s c rest h hr]
     | cons c' r' =>
       rw [hca] at h
       simp only [List.cons_append, List.cons.injEq] at h
@@ -163,11 +174,10 @@ theorem c14_propagates_evalM (env : Nat → Nat) (read : Nat → St → Res Fetc
   | inter a b iha ihb =>
     intro s c rest h hr
     simp only [callees] at h
-    cases hca : callees env a with
+    cases hca : callees env ρ a with
     | nil =>
       rw [hca] at h
-      obtain ⟨x, hx⟩ := pure a s hca
-      simp [evalM, hx, ihb s c rest h hr]
+      simp [evalM, pure a s hca, ihb s c rest h hr]
     | cons c' r' =>
       rw [hca] at h
       simp only [List.cons_append, List.cons.injEq] at h
@@ -180,12 +190,28 @@ theorem c14_propagates_evalM (env : Nat → Nat) (read : Nat → St → Res Fetc
     split
     · rename_i hc; rw [if_pos hc] at h; exact iha s c rest h hr
     · rename_i hc; rw [if_neg hc] at h; exact ihb s c rest h hr
+  | gate g a ihg iha =>
+    intro s c rest h hr
+    simp only [callees] at h
+    cases hcg : callees env ρ g with
+    | nil =>
+      rw [hcg] at h
+      simp only [List.nil_append] at h
+      by_cases ho : evalExpr env ρ g % 2 = 1
+      · rw [if_pos ho] at h
+        simp [evalM, pure g s hcg, ho, iha s c rest h hr]
+      · rw [if_neg ho] at h; cases h
+    | cons c' r' =>
+      rw [hcg] at h
+      simp only [List.cons_append, List.cons.injEq] at h
+      obtain ⟨rfl, _⟩ := h
+      simp [evalM, ihg s c' r' hcg hr]
 
 /-- a panic of the body is the outcome of the head loop (no value, no retry). -/
 theorem c14_propagates_loop (P : Prog) (env : Nat → Nat) (read : Nat → St → Res Fetched)
-    (j fuel stamp : Nat) (outer : Bool) (s : St) (err : Panic)
+    (j fuel stamp : Nat) (s : St) (err : Panic)
     (h : evalM env read (P.node j).body s = .error err) :
-    executeMaybeIterate P env read j outer (fuel + 1) stamp s = .error err := by
+    executeMaybeIterate P env read j (fuel + 1) stamp s = .error err := by
   rw [executeMaybeIterate, h]
 
 /-- … and of `execute`. -/
@@ -194,21 +220,21 @@ theorem c14_propagates_execute (P : Prog) (env : Nat → Nat) (d j : Nat) (s : S
       = .error err) :
     execute P env (d + 1) j s = .error err := by
   unfold execute loopFuel
-  exact c14_propagates_loop P env _ j _ _ false _ err h
+  exact c14_propagates_loop P env _ j _ _ _ err h
 
-/-- **c14_self_call (end to end, partial).**  A node without recovery whose first call is to
-    itself: a request for it (not memoised, not poisoned) ends in `panic cycle` with stack `[j]`
+/-- **c14_self_call (end to end, partial).**  A node without recovery whose first call (under any
+    assignment `ρ` of the gates before it) is to itself: a request for it (not memoised, not poisoned) ends in `panic cycle` with stack `[j]`
     — never a value, never a hang. -/
-theorem c14_self_call_partial (P : Prog) (env : Nat → Nat) (j : Nat) (rest : List Nat)
+theorem c14_self_call_partial (P : Prog) (env ρ : Nat → Nat) (j : Nat) (rest : List Nat)
     (final : List (Nat × Nat)) (poisoned : List Nat)
-    (hstrat : (P.node j).strat = .panic) (hcall : callees env (P.node j).body = j :: rest)
+    (hstrat : (P.node j).strat = .panic) (hcall : callees env ρ (P.node j).body = j :: rest)
     (hpois : j ∉ poisoned) (hfinal : final.lookup j = none) :
     eval P env final poisoned j = .error ⟨.cycle, [j]⟩ := by
   have hinner : fetch P (execute P env P.n) j
       { (St.init final poisoned) with stack := j :: (St.init final poisoned).stack }
       = .error ⟨.cycle, [j]⟩ :=
     c14_panics P _ j _ hstrat List.mem_cons_self hpois hfinal
-  have hbody := c14_propagates_evalM env (fetch P (execute P env P.n)) ⟨.cycle, [j]⟩
+  have hbody := c14_propagates_evalM env ρ (fetch P (execute P env P.n)) ⟨.cycle, [j]⟩
     (P.node j).body _ j rest hcall hinner
   have hexec := c14_propagates_execute P env P.n j (St.init final poisoned) _ hbody
   unfold eval fetch
@@ -308,7 +334,10 @@ example : ((Db.empty.get ex1 envA 0).2.newRevision.get ex1 envB 0).1 = .value 7 
 example : (Db.empty.get ex1 envB 1).1 = .panic .cycle := by decide
 /-- self call -/
 example : ex1.Wf := by decide
+/-- … also behind an open gate whose condition fetches nothing. -/
+example : eval ⟨[⟨.panic, .gate (.input 0) (.call 0)⟩]⟩ envA [] [] 0 = .error ⟨.cycle, [0]⟩ :=
+  c14_self_call_partial _ envA (fun _ => 0) 0 [] [] [] rfl rfl (by simp) rfl
 example : eval ⟨[⟨.panic, .union (.call 0) (.const 1)⟩]⟩ envA [] [] 0 = .error ⟨.cycle, [0]⟩ :=
-  c14_self_call_partial _ envA 0 [] [] [] rfl rfl (by simp) rfl
+  c14_self_call_partial _ envA (fun _ => 0) 0 [] [] [] rfl rfl (by simp) rfl
 
 end SalsaVerif.Props.C14
